@@ -313,12 +313,17 @@ def run(chk: Check):
             chk.violation({"event": e}, f"{e['id']}: printed values differ from the stored ones for {keys}: printed {json.dumps(detail)[:300]}")
         else:
             chk.agree()
-    # binding self-test
-    e2 = json.loads(json.dumps(events[0]))
-    e2["printed"]["samples_cnt"] = str(int(e2["printed"]["samples_cnt"]) + 1)
-    if [r["line"] for r in validate(chk, [events[0], e2], "binding self-test (one corrupted value)")] != [2]:
-        raise tlc.TlcError("binding self-test failed")
-    chk.extra["binding_selftest"] = "corrupted printed value rejected"
+    # binding self-test on a line that was accepted: corrupt one printed value, it must be rejected
+    good = next((e for i, e in enumerate(events, start=1) if i not in bad and e["kind"] == "akai_sample"
+                 and str(e["printed"].get("samples_cnt", "")).isdigit()), None)
+    if good is not None:
+        e2 = json.loads(json.dumps(good))
+        e2["printed"]["samples_cnt"] = str(int(e2["printed"]["samples_cnt"]) + 1)
+        if [r["line"] for r in validate(chk, [good, e2], "binding self-test (one corrupted value)")] != [2]:
+            raise tlc.TlcError("binding self-test failed")
+        chk.extra["binding_selftest"] = "corrupted printed value rejected"
+    else:
+        chk.extra["binding_selftest"] = "skipped: no accepted AKAI sample line in this run"
     chk.extra["programs_over_300_line_cap_skipped"] = over_cap
     chk.sample({"id": events[0]["id"], "stored": {k: events[0]["stored"][k] for k in ("sampling_rate", "samples_cnt", "loop_type")},
                 "printed": {k: events[0]["printed"][k] for k in ("sample_rate", "samples_cnt", "loop_type")}})
